@@ -929,6 +929,9 @@ def check_C09(c):
     lits += ["0.1", "0.2", "0.3", "1.10", "1.", "0", "00", "007", "0.0", "0.10", "10", "1.0000000000000000000000000000", MAXD, "7.9228162514264337593543950335"]
     lits += ["0." + "0" * k_ for k_ in range(1, 29)] + ["00.00", "000.0"]   # zero keeps its places like any other literal
     bad = ["1.2.3", "1e5", "1E5", "1e+5", "1e-5", "1..", "12e", "1.e5", "79228162514264337593543950336", "792281625142643375935439503350", "1e", "2E+"]
+    # a second decimal point (or more) after 28 fractional digits: still not a decimal
+    for head in ("0.0000000000000000000000000001", "1.0000000000000000000000000000", "0.1234567890123456789012345678", "7922816251.426433759354395033" + "5" * 10):
+        bad += [head + ".", head + ".5", head + "..", head + ".2.3", head + "1.", head + "e5"]
     reqs = ["CTX\tc\t()"]
     for t in lits + bad:
         reqs.append(exec_line("c", t))
